@@ -166,18 +166,38 @@ Proof.
   - destruct (n <? 2 ^ 16); [|destruct (n <? 2 ^ 32)]; eexists _, _; (split; [reflexivity|]); vm_compute; discriminate.
 Qed.
 
-Lemma clampZ_app {A} (s rest : list A) : clampZ (Z.of_nat (length s)) (s ++ rest) = length s.
-Proof. unfold clampZ. rewrite app_length. rewrite Z.min_l by lia. apply Nat2Z.id. Qed.
-
 Lemma takeZ_app {A} (s rest : list A) : takeZ (Z.of_nat (length s)) (s ++ rest) = s.
 Proof.
-  unfold takeZ. rewrite clampZ_app, firstn_app, Nat.sub_diag, firstn_all. cbn [firstn]. apply app_nil_r.
+  induction s as [|a s IH].
+  - destruct rest; reflexivity.
+  - cbn [app takeZ]. destruct (Z.leb_spec (Z.of_nat (length (a :: s))) 0) as [L|L]; [cbn [length] in L; lia|].
+    replace (Z.of_nat (length (a :: s)) - 1) with (Z.of_nat (length s)) by (cbn [length]; lia). now rewrite IH.
 Qed.
 
 Lemma dropZ_app {A} (s rest : list A) : dropZ (Z.of_nat (length s)) (s ++ rest) = rest.
 Proof.
-  unfold dropZ. rewrite clampZ_app, skipn_app, Nat.sub_diag, skipn_all. reflexivity.
+  induction s as [|a s IH].
+  - destruct rest; reflexivity.
+  - cbn [app dropZ]. destruct (Z.leb_spec (Z.of_nat (length (a :: s))) 0) as [L|L]; [cbn [length] in L; lia|].
+    replace (Z.of_nat (length (a :: s)) - 1) with (Z.of_nat (length s)) by (cbn [length]; lia). exact IH.
 Qed.
 
 Lemma dropZ_length {A} z (l : list A) : (length (dropZ z l) <= length l)%nat.
-Proof. unfold dropZ. rewrite skipn_length. lia. Qed.
+Proof.
+  revert z. induction l as [|a l IH]; intros z; cbn [dropZ]; [lia|].
+  destruct (z <=? 0); [lia|]. specialize (IH (z - 1)). cbn [length]. lia.
+Qed.
+
+(* they are Python's clamped slices: firstn / skipn at min(z, len l) *)
+Lemma takeZ_firstn {A} z (l : list A) : 0 <= z -> takeZ z l = firstn (Z.to_nat z) l.
+Proof.
+  revert z. induction l as [|a l IH]; intros z Hz; cbn [takeZ]; [now rewrite firstn_nil|].
+  destruct (Z.leb_spec z 0); [replace z with 0 by lia; reflexivity|].
+  replace (Z.to_nat z) with (S (Z.to_nat (z - 1))) by lia. cbn [firstn]. rewrite IH by lia. reflexivity.
+Qed.
+Lemma dropZ_skipn {A} z (l : list A) : 0 <= z -> dropZ z l = skipn (Z.to_nat z) l.
+Proof.
+  revert z. induction l as [|a l IH]; intros z Hz; cbn [dropZ]; [now rewrite skipn_nil|].
+  destruct (Z.leb_spec z 0); [replace z with 0 by lia; reflexivity|].
+  replace (Z.to_nat z) with (S (Z.to_nat (z - 1))) by lia. cbn [skipn]. rewrite IH by lia. reflexivity.
+Qed.
